@@ -17,6 +17,7 @@ def dispatch (line : String) : String :=
     | "perm" :: rest => permCmd rest
     | "ehist" :: rest => ehistCmd rest
     | "mhist" :: rest => mhistCmd rest
+    | "pipe" :: rest => pipeCmd rest
     | "names" :: rest => namesCmd rest
     | "color" :: rest => colorCmd rest
     | "tex" :: rest => texCmd rest
